@@ -65,6 +65,16 @@ func (e *Engine) merge2(a, b *State) (*State, bool) {
 	for base < len(a.pc) && base < len(b.pc) && a.pc[base] == b.pc[base] {
 		base++
 	}
+	for _, c := range a.pc[base:] {
+		if e.hardConds[c.ID] {
+			return nil, false
+		}
+	}
+	for _, c := range b.pc[base:] {
+		if e.hardConds[c.ID] {
+			return nil, false
+		}
+	}
 	condA := e.suffixCond(a, base)
 	condB := e.suffixCond(b, base)
 	// globals maps must agree on common keys
